@@ -20,35 +20,23 @@ type rangeHeader struct {
 	end   int64 // -1 indicates no end
 }
 
-func parseRangeNumber(numStr string) (num int64, endIndex int64, ok bool) {
+// Parses a non-negative decimal number, allowing surrounding whitespace.
+// Anything else (sign, other characters, inner whitespace, a value that does not fit) is rejected.
+func parseRangeNumber(numStr string) (num int64, ok bool) {
+	numStr = strings.Trim(numStr, " \t")
 	if numStr == "" {
-		return 0, 0, false
+		return 0, false
 	}
-
-	if numStr[0] == '-' {
-		// Negative numbers are not allowed
-		return 0, 0, false
-	}
-
-	var index int64 = 0
-	for i, ch := range numStr {
-		if ch == ' ' || ch == '\t' {
-			index++
-			continue
-		}
-
+	for _, ch := range numStr {
 		if ch < '0' || ch > '9' {
-			if i == 0 {
-				return 0, 0, false
-			}
-			return num, index, true
+			return 0, false
 		}
-
-		num = num*10 + int64(ch-'0')
-		index++
 	}
-
-	return num, index, true
+	num, err := strconv.ParseInt(numStr, 10, 64)
+	if err != nil {
+		return 0, false // Does not fit: no representation can be that large, so the range is unusable
+	}
+	return num, true
 }
 
 func validateRange(start, end, dataSize int64) error {
@@ -59,61 +47,50 @@ func validateRange(start, end, dataSize int64) error {
 }
 
 func parseRangeHeader(rangeStr string) (rangeHeader, error) {
-	splitStr := strings.SplitN(rangeStr, "=", 2)
-	if len(splitStr) != 2 {
+	unit, valuesStr, found := strings.Cut(rangeStr, "=")
+	if !found {
 		return rangeHeader{}, ErrInvalidRangeFormat
 	}
-
-	unit := splitStr[0]
-	valuesStr := splitStr[1]
 
 	if unit != "bytes" {
 		return rangeHeader{}, ErrInvalidRangeUnit
 	}
 
-	firstCh := valuesStr[0]
-	if firstCh == '-' {
+	if strings.Contains(valuesStr, ",") {
+		return rangeHeader{}, ErrMultipleRangesNotSupported
+	}
+
+	startStr, endStr, found := strings.Cut(valuesStr, "-")
+	if !found {
+		return rangeHeader{}, ErrInvalidRangeFormat
+	}
+	if strings.Contains(endStr, "-") {
+		// Invalid format: -N-..., N-M-...
+		return rangeHeader{}, ErrInvalidRangeFormat
+	}
+
+	if strings.Trim(startStr, " \t") == "" {
 		// Suffix range: last N bytes
-		suffixLength, suffixTail, ok := parseRangeNumber(valuesStr[1:])
+		suffixLength, ok := parseRangeNumber(endStr)
 		if !ok {
 			return rangeHeader{}, ErrInvalidRangeValue
 		}
-		suffixTail += 1 // To adjust for the firstCh offset
-
-		isTailSmaller := suffixTail < int64(len(valuesStr))
-		if isTailSmaller && valuesStr[suffixTail] == ',' {
-			return rangeHeader{}, ErrMultipleRangesNotSupported
-		} else if isTailSmaller && valuesStr[suffixTail] == '-' {
-			// Invalid format: -N-...
-			return rangeHeader{}, ErrInvalidRangeFormat
-		}
-
 		return rangeHeader{start: -1, end: suffixLength}, nil // Indicate suffix range
 	}
 
-	start, startTail, ok := parseRangeNumber(valuesStr)
+	start, ok := parseRangeNumber(startStr)
 	if !ok {
 		return rangeHeader{}, ErrInvalidRangeValue
 	}
 
-	middleCh := valuesStr[startTail]
-	if middleCh != '-' {
-		return rangeHeader{}, ErrInvalidRangeFormat
-	}
-
-	if startTail+1 >= int64(len(valuesStr)) {
+	if strings.Trim(endStr, " \t") == "" {
 		// Unbounded range: start-
 		return rangeHeader{start: start, end: -1}, nil
 	}
 
-	end, endTail, ok := parseRangeNumber(valuesStr[startTail+1:])
+	end, ok := parseRangeNumber(endStr)
 	if !ok {
 		return rangeHeader{}, ErrInvalidRangeValue
-	}
-	endTail += startTail + 1 // To adjust for the middleCh offset
-
-	if endTail < int64(len(valuesStr)) && valuesStr[endTail] == ',' {
-		return rangeHeader{}, ErrMultipleRangesNotSupported
 	}
 
 	return rangeHeader{start: start, end: end}, nil
